@@ -43,17 +43,32 @@ impl<'i> TryFrom<&'i str> for expr::ValueExpr<'i> {
     }
 }
 
+/// Parentheses deeper than this are refused as a syntax error:
+/// the parser, and everything that walks the expression later, is recursive.
+const MAX_PAREN_DEPTH: usize = 128;
+
+thread_local! {
+    static PAREN_DEPTH: std::cell::Cell<usize> = const { std::cell::Cell::new(0) };
+}
+
 fn paren_expr<'i, I, E>(input: &mut I) -> winnow::Result<expr::ValueExpr<'i>, E>
 where
     I: Stream<Token = char, Slice = &'i str> + StreamIsPartial + Clone,
     E: ParserError<I> + FromExternalError<I, pretty_decimal::Error>,
     <I as Stream>::Token: AsChar + Clone,
 {
-    trace(
+    let depth = PAREN_DEPTH.get();
+    if depth >= MAX_PAREN_DEPTH {
+        return Err(E::from_input(input));
+    }
+    PAREN_DEPTH.set(depth + 1);
+    let ret = trace(
         "expr::paren_expr",
         paren(delimited(space0, add_expr, space0)).map(expr::ValueExpr::Paren),
     )
-    .parse_next(input)
+    .parse_next(input);
+    PAREN_DEPTH.set(depth);
+    ret
 }
 
 fn add_expr<'i, I, E>(input: &mut I) -> winnow::Result<expr::Expr<'i>, E>
